@@ -3,50 +3,108 @@
 #        ./run.sh <Cxx> --replay <file>       re-evaluate a recorded witness
 # Rebuilds the harness against the current working tree of /repo (or $VERIF_REPO)
 # with the hooks enabled (-tags verif) on every invocation.
+#
+# Build variants: plain; race (C15: -race); overlay (C13: patched copies of two files of package os);
+# yield: the harness is built against a scratch copy of the repository in which cmd/yieldify inserted a
+# call to a perturbation hook between all critical sections of package index (copy made from the
+# current working tree at run time, outside /repo and /verif, removed when the run ends).
+# C01 C02 C04 C05 C06 C15 run in two stages in both tiers: the ordinary build, then the yield-instrumented
+# one (its evidence carries the first stage's coverage along; in the thorough tier the second stage runs a
+# quarter of the cases). VERIF_VARIANT=yield forces the instrumented build alone for any id / tier,
+# VERIF_VARIANT=plain the ordinary build alone.
 set -u
 cd "$(dirname "$0")"
 ROOT=$(pwd)
 export VERIF_ROOT=${VERIF_ROOT:-$ROOT}
 export GOFLAGS=-mod=mod GOPROXY=off GOSUMDB=off GOTOOLCHAIN=local
-REPO=${VERIF_REPO:-/repo}
+SRCREPO=${VERIF_REPO:-/repo}
 ID=${1:?property id}
 MODE=${2:?quick|thorough|--replay}
-variant=plain
-case "$ID" in
-  C15) variant=race ;;
-  C13) variant=overlay ;;
-esac
-if [ "${VERIF_VARIANT:-}" != "" ]; then variant=$VERIF_VARIANT; fi
 mkdir -p bin
-tag=$(echo -n "$REPO" | cksum | cut -d' ' -f1)
-BIN="$ROOT/bin/vcheck-$variant-$tag"
-MODARGS=()
-if [ "$REPO" != "/repo" ]; then
-  mkdir -p "bin/mod-$tag"
-  sed "s#=> /repo#=> $REPO#" harness/go.mod > "bin/mod-$tag/go.mod"
-  cp harness/go.sum "bin/mod-$tag/go.sum"
-  MODARGS=(-modfile="$ROOT/bin/mod-$tag/go.mod")
-fi
-BUILDARGS=(-tags verif)
-case "$variant" in
-  race) BUILDARGS+=(-race) ;;
-  overlay)
-    OV="$ROOT/bin/overlay-$tag"
-    "$ROOT/overlay/mkoverlay.sh" "$OV" || { echo "overlay preparation failed"; exit 2; }
-    BUILDARGS+=(-overlay "$OV/overlay.json" -tags verif,verifoverlay)
-    ;;
-esac
-( cd harness && go build "${MODARGS[@]}" "${BUILDARGS[@]}" -o "$BIN.$$" ./cmd/vcheck ) 2> "bin/build-$variant-$tag.log"
-rc=$?
-if [ $rc -ne 0 ]; then
-  echo "BUILD-FAILED (harness against $REPO, variant $variant); see bin/build-$variant-$tag.log"
-  tail -20 "bin/build-$variant-$tag.log"
-  rm -f "$BIN.$$"
-  exit 2
-fi
-mv -f "$BIN.$$" "$BIN"
-export VERIF_REPO_DIR="$REPO"
+
+YIELD_DIR=""
+cleanup() { if [ -n "$YIELD_DIR" ]; then rm -rf "$YIELD_DIR"; fi; }
+trap cleanup EXIT
+
+# run_stage <yield:0|1>
+run_stage() {
+  local yield=$1
+  local REPO=$SRCREPO
+  local variant=plain
+  case "$ID" in
+    C15) variant=race ;;
+    C13) variant=overlay ;;
+  esac
+  local TAGS=verif
+  if [ "$yield" = 1 ]; then
+    ( cd harness && go build -o "$ROOT/bin/yieldify" ./cmd/yieldify ) 2> "bin/build-yieldify.log" || { echo "BUILD-FAILED (yieldify)"; tail -20 bin/build-yieldify.log; return 2; }
+    YIELD_DIR=$(mktemp -d "${TMPDIR:-/tmp}/verif-yield-XXXXXX")
+    "$ROOT/bin/yieldify" "$SRCREPO" "$YIELD_DIR/bluge" > "bin/yieldify-$ID.log" 2>&1 || { echo "BUILD-FAILED (yield instrumentation of $SRCREPO)"; tail -5 "bin/yieldify-$ID.log"; return 2; }
+    REPO="$YIELD_DIR/bluge"
+    variant="$variant-yield"
+    TAGS=verif,verifyield
+  fi
+  local tag
+  tag=$(echo -n "$SRCREPO" | cksum | cut -d' ' -f1)
+  local BIN="$ROOT/bin/vcheck-$variant-$tag"
+  local MODARGS=()
+  if [ "$REPO" != "/repo" ]; then
+    local md="bin/mod-$tag-$variant-$$"
+    mkdir -p "$md"
+    sed "s#=> /repo#=> $REPO#" harness/go.mod > "$md/go.mod"
+    cp harness/go.sum "$md/go.sum"
+    MODARGS=(-modfile="$ROOT/$md/go.mod")
+  fi
+  local BUILDARGS=()
+  case "$variant" in
+    race*) BUILDARGS+=(-race) ;;
+    overlay*)
+      local OV="$ROOT/bin/overlay-$tag"
+      "$ROOT/overlay/mkoverlay.sh" "$OV" || { echo "overlay preparation failed"; return 2; }
+      BUILDARGS+=(-overlay "$OV/overlay.json")
+      TAGS="$TAGS,verifoverlay"
+      ;;
+  esac
+  ( cd harness && go build "${MODARGS[@]}" "${BUILDARGS[@]}" -tags "$TAGS" -o "$BIN.$$" ./cmd/vcheck ) 2> "bin/build-$variant-$tag.log"
+  local rc=$?
+  if [ "$REPO" != "/repo" ]; then rm -rf "bin/mod-$tag-$variant-$$"; fi
+  if [ $rc -ne 0 ]; then
+    echo "BUILD-FAILED (harness against $REPO, variant $variant); see bin/build-$variant-$tag.log"
+    tail -20 "bin/build-$variant-$tag.log"
+    rm -f "$BIN.$$"
+    return 2
+  fi
+  mv -f "$BIN.$$" "$BIN"
+  export VERIF_REPO_DIR="$REPO"
+  if [ "$MODE" = "--replay" ]; then
+    "$BIN" "$ID" --replay "${REPLAY_FILE}"
+  else
+    "$BIN" "$ID" "$MODE"
+  fi
+  rc=$?
+  cleanup; YIELD_DIR=""
+  return $rc
+}
+
 if [ "$MODE" = "--replay" ]; then
-  exec "$BIN" "$ID" --replay "${3:?replay file}"
+  REPLAY_FILE=${3:?replay file}
+  if [ "${VERIF_VARIANT:-}" = "yield" ]; then run_stage 1; else run_stage 0; fi
+  exit $?
 fi
-exec "$BIN" "$ID" "$MODE"
+if [ "${VERIF_VARIANT:-}" = "yield" ]; then
+  VERIF_STAGE=yield run_stage 1
+  exit $?
+fi
+two_stage=0
+case "$ID" in C01|C02|C04|C05|C06|C15) two_stage=1 ;; esac
+if [ "${VERIF_VARIANT:-}" = "plain" ]; then two_stage=0; fi
+if [ $two_stage = 0 ]; then
+  run_stage 0
+  exit $?
+fi
+VERIF_STAGE=plain run_stage 0
+rc=$?
+if [ $rc -ne 0 ]; then exit $rc; fi
+echo "--- stage 2: yield-instrumented build"
+VERIF_STAGE=yield VERIF_STAGE_MERGE=1 run_stage 1
+exit $?
